@@ -443,7 +443,16 @@ func runCase(t hx.TB, tc tcase, class string) {
 		for _, p := range all {
 			sum += p.cum
 			el := p.at.Sub(firstAny).Seconds()
-			if bound := b + tc.TotalRate*el + float64(len(tc.Conns)); float64(sum) > bound {
+			// Several connections use the total limiter at the same time. golang.org/x/time/rate takes its time stamp
+			// before it takes its lock, so a caller that was overtaken moves the limiter's clock back and the interval in
+			// between is credited twice: rate x (how long that caller waited for the lock), per such event. That is the
+			// library's precision under contention, not the handler's doing; one millisecond per connection is allowed
+			// for it here (a single connection, where nothing of the kind can happen, is held to the exact bound above).
+			slack := float64(len(tc.Conns))
+			if len(tc.Conns) > 1 {
+				slack += tc.TotalRate * 0.001 * float64(len(tc.Conns))
+			}
+			if bound := b + tc.TotalRate*el + slack; float64(sum) > bound {
 				hx.Fail(t, "C17", "total-bound", "all connections together had read %d bytes %.6f s after the first of them could have read; total burst + total rate x T allows %.1f\n  %s", sum, el, bound, desc)
 				return
 			}
